@@ -40,6 +40,12 @@ func (proof *Proof) Verify(key []byte, value []byte, root []byte) bool {
 	}
 	hash := leafHash
 	for _, branch := range proof.InnerNodes {
+		// leaf and inner records hash the same wire shape; an inner node of the tree has height >= 1
+		// and at least two leaves below it, so a record with a leaf's height/size is a stored leaf
+		// offered as an inner node (its key/value posing as child hashes) and proves nothing
+		if branch.GetHeight() < 1 || branch.GetSize() < 2 {
+			return false
+		}
 		//hash = branch.ProofHash(hash)
 		hash = InnerNodeProofHash(hash, branch)
 	}
